@@ -218,5 +218,8 @@ func FuncName(fn *ssa.Function) string {
 		pp = strings.TrimPrefix(pp, ModPath+"/")
 		return pp + ":" + s
 	}
+	if pp := FnPkgPath(fn); pp != "" {
+		return strings.TrimPrefix(pp, ModPath+"/") + ":" + strings.TrimPrefix(fn.String(), pp+".")
+	}
 	return fn.String()
 }
